@@ -619,7 +619,9 @@ fn rt_one(t: &mut Tables, chunks: &[Vec<u8>], req: u8, rng: &mut StdRng, cnt: &m
 
     // the three chunk decoders on the physical byte ranges
     let phys = |k: usize| -> usize { if k == 0 { 0 } else { an.headers.get(k).map(|h| h.start).unwrap_or(an.frames_end) } };
-    let mut dranges: Vec<(usize, usize)> = (0..n).map(|i| (i, i + 1)).collect();
+    // every single chunk (for very long xorbs: the first and last 16 and every (n/128)-th), the whole, some inner ranges
+    let step = (n / 128).max(1);
+    let mut dranges: Vec<(usize, usize)> = (0..n).filter(|i| *i < 16 || *i + 16 >= n || i % step == 0).map(|i| (i, i + 1)).collect();
     dranges.push((0, n));
     if n <= 6 {
         dranges = ranges.clone();
